@@ -82,6 +82,15 @@ __CPROVER_ensures(__CPROVER_return_value != C8_NPOS ==> s->data[__CPROVER_return
 __CPROVER_ensures((pos <= s->size && g_rk < (__CPROVER_return_value == C8_NPOS ? s->size : __CPROVER_return_value) - pos) ==> s->data[pos + g_rk] != ch)   /* g_rk is relative to pos */
 __CPROVER_assigns();
 
+#ifdef C8_CONCRETE
+/* executable definition, used only by the bounded count check (no contract replacement there) */
+size_t c8_find_ch(const vstr* s, char ch, size_t pos)
+{
+  for (size_t verif_i = pos; verif_i < s->size; verif_i++) if (s->data[verif_i] == ch) return verif_i;
+  return C8_NPOS;
+}
+#endif
+
 /* s.find(p, pos, n) with n > 0 or n == 0: lowest index r >= pos with r + n <= size and s[r, r+n) == p[0, n), npos if none.
  * "no earlier match" is stated for the ghost candidate g_cand with the mismatch witness g_wit chosen by the stub. */
 size_t c8_find_buf(const vstr* s, const char* p, size_t pos, size_t n)
